@@ -782,7 +782,11 @@ func (c *simCtx) computeRefs(pool []*PoolProg, variants []string, K int, baseSee
 	var jobs []job
 	for pi := range pool {
 		for _, v := range variants {
-			for k := 0; k < K; k++ {
+			kk := K
+			if v == "native" {
+				kk = K + 2 // real threads and real entropy are only sampled: sample a little more
+			}
+			for k := 0; k < kk; k++ {
 				jobs = append(jobs, job{pi, v, k})
 			}
 		}
